@@ -321,7 +321,9 @@ fn client(d: Arc<dyn Drv>, h: HCfg, tid: u8, ids: Arc<AtomicU64>, clears: Arc<(A
                     batch.clear();
                     batch_n.clear();
                     batch_err = false;
-                    batch_clear_started = (clears.0.load(Ordering::SeqCst), clears.1.load(Ordering::SeqCst));
+                    // the next batch starts at the sample the verdict was based on: a clear() that ran after
+                    // that sample belongs to the next batch
+                    batch_clear_started = clear_now;
                 } else if barrier {
                     // wait failed (full buffer): the batch simply continues
                 }
@@ -622,6 +624,19 @@ pub fn check_history(hist: &Hist, rep: &mut Report) {
         rep.violate("C01", "used/not-sum-of-charges", format!("used {} != sum of charges {sum} at quiescence", hist.snap.used), json!({"history": d}));
     }
 
+    // ---------------------------------------------------------------- C01: cost of what is really resident
+    // (internal cost is ignored in hostile histories, so an entry costs what its insert said)
+    if !ops.iter().any(|o| o.op == OP_MAXCOST) && hist.h.vld_mode == 0 {
+        let cost_of: HashMap<u64, i64> = ops.iter().filter(|o| matches!(o.op, OP_INSERT | OP_IF_PRESENT)).map(|o| (o.id, o.cost)).collect();
+        let resident_cost: i64 = hist.snap.store.iter().map(|e| cost_of.get(&e.tag).copied().unwrap_or(0)).sum();
+        // in-place updates may push the total over max_cost until the next admission: at most by their own cost
+        let update_slack: i64 = ops.iter().filter(|o| matches!(o.op, OP_INSERT | OP_IF_PRESENT) && o.update_path).map(|o| o.cost).max().unwrap_or(0) * hist.h.keys as i64;
+        rep.count("ho_c01_resident_cost_checks");
+        if resident_cost > hist.h.cfg.max_cost + update_slack {
+            rep.violate("C01", "resident-cost/over-max", format!("at quiescence the resident entries cost {resident_cost} in total, max_cost is {} (the policy says used = {})", hist.h.cfg.max_cost, hist.snap.used), json!({"history": d, "resident": hist.snap.store.iter().map(|e| (e.index, cost_of.get(&e.tag).copied().unwrap_or(0))).collect::<Vec<_>>(), "policy": hist.snap.costs}));
+        }
+    }
+
     // ---------------------------------------------------------------- C01: policy log
     let before = rep.violations_for("C01");
     let sh = check_policy_log(hist.h.cfg.max_cost, &hist.policy, rep, &json!({"history": d}));
@@ -711,6 +726,12 @@ pub fn check_history(hist: &Hist, rep: &mut Report) {
     }
     let ok_waits: Vec<(u64, u64)> = ops.iter().filter(|o| o.op == OP_WAIT && o.ok).map(|o| (o.call, o.ret)).collect();
     let removes: Vec<&OpRec> = ops.iter().filter(|o| o.op == OP_REMOVE && o.ok).collect();
+    let mut updates_by_key: HashMap<u64, Vec<&OpRec>> = HashMap::new();
+    for o in ops.iter() {
+        if matches!(o.op, OP_INSERT | OP_IF_PRESENT) && o.ok && o.update_path {
+            updates_by_key.entry(o.key).or_default().push(o);
+        }
+    }
     let final_val: HashMap<u64, u64> = hist.final_gets.iter().filter(|g| g.hit).map(|g| (g.key, g.seen_id)).collect();
     for o in ops.iter().chain(hist.final_gets.iter()) {
         if !matches!(o.op, OP_GET | OP_GET_MUT | OP_GET_MUT_WRITE) {
@@ -759,6 +780,28 @@ pub fn check_history(hist: &Hist, rep: &mut Report) {
                     rep.count("ho_c02_r3_candidates");
                     rep.violate("C02", "lookup/stale-after-clear", format!("{}: value written by {} returned although clear() [{cc}..{cr}] ran in between", o.short(), w.short()), tl(o.ret));
                     rep.violate("C11", "lookup/stale-after-clear", format!("{}: value written by {} survived clear() [{cc}..{cr}]", o.short(), w.short()), tl(o.ret));
+                }
+            }
+        }
+        // R4': an update that was applied inside its call is never rolled back: as long as its value has
+        // not been handed to a callback (and no clear() intervened), no later look-up may return a
+        // value that was written entirely before the update
+        if o.hit {
+            if let Some(wu) = write_of.get(&o.seen_id) {
+                for w in updates_by_key.get(&o.key).map(|v| v.as_slice()).unwrap_or(&[]) {
+                    if w.ret < o.call && wu.ret < w.call && w.id != o.seen_id {
+                        rep.count("ho_c02_rollback_candidates");
+                        // the value has left the store: handed to a callback, overwritten in place, or swapped
+                        // out by a later update whose call had begun (its on_exit may lag behind the swap)
+                        let gone = cb_of.get(&w.id).map_or(false, |c| c.iter().any(|e| e.seq < o.ret))
+                            || mutated_away.get(&w.id).map_or(false, |s| *s < o.ret)
+                            || updates_by_key.get(&o.key).map_or(false, |v| v.iter().any(|w2| w2.exited_id == w.id && w2.call < o.ret));
+                        let cleared = clears.iter().any(|(_cc, cr)| *cr > w.call);
+                        let removed = removes.iter().any(|x| x.key == o.key && x.ret > w.call && x.call < o.ret);
+                        if !gone && !cleared && !removed {
+                            rep.violate("C02", "update/rolled-back", format!("{}: returned a value written by {} although the later in-place update {} had been applied and its value never left the cache", o.short(), wu.short(), w.short()), tl(o.ret));
+                        }
+                    }
                 }
             }
         }
@@ -931,6 +974,7 @@ pub fn gen_history(prop: &str, rng: &mut Rng, hno: u64) -> HCfg {
             ignore_internal: true,
             cleanup: Some(Duration::from_millis(*rng.pick(&[100u64, 500, 1000, 2000]))),
             collide: false,
+            collide_zero_even: false,
             manual_ticker: true,
         },
         mode,
